@@ -15,9 +15,15 @@ Definition default_interval : Z := 1000000000.
 Definition setting (o : option f64) : f64 := match o with Some x => x | None => fzero end.
 
 (* clockDrift: None = logbase.Fatal; the value is in seconds per second, timemath.Duration turns it into ns per s
-   (NaN, infinities and values beyond the int64 range become MinInt64, amd64 CVTTSD2SI) *)
+   (NaN, infinities and values beyond the int64 range become MinInt64, amd64 CVTTSD2SI).  The service refuses a
+   drift that is not a number >= 0, and a non-zero drift that does not come to a positive number of ns per s
+   (below 1 ns/s it would become 0 = clocks.UnknownDrift and void the bound; beyond the int64 range it is negative):
+     d := timemath.Duration(cfg.ClockDrift)
+     if !(cfg.ClockDrift >= 0) || (cfg.ClockDrift != 0 && d <= 0) { logbase.Fatal(...) } *)
 Definition clock_drift (x : option f64) : option Z :=
-  if flt (setting x) fzero then None else Some (dur_of_seconds (setting x)).
+  let v := setting x in
+  let d := dur_of_seconds v in
+  if negb (fge v fzero) || (negb (feq v fzero) && (d <=? 0)) then None else Some d.
 
 Definition factor_or (x : option f64) (dflt : f64) : f64 := if feq (setting x) fzero then dflt else setting x.
 Definition dur_or (x : option f64) (dflt : Z) : Z :=
@@ -65,12 +71,26 @@ Definition dur_setting_ok (x : option f64) (dflt out : Z) : bool :=
    on unchanged (bit for bit, NaN being one value); the drift and the three durations are given in seconds and
    arrive in nanoseconds *)
 Definition same_f (a b : f64) : bool := f_to_bits a =? f_to_bits b.
+(* at or beyond 2^62 ns (also: not finite) *)
+Definition huge_ns (x : f64) : bool :=
+  match scaled x with Some (v, q) => 2^62 * q <=? Z.abs v | None => true end.
+
+(* The drift setting, from the property: "Settings that would void the bound are refused at start-up"; the bound is
+   for a configured drift > 0.  A drift that is not a number >= 0 must be refused.  A positive drift must either
+   arrive as a POSITIVE number of ns per s (x * 10^9 up to rounding) or be refused - and it may be refused only when
+   it has no such value (below 1 ns/s, or beyond the range judged here).  0 (or nothing) configured is the
+   documented "unknown drift" and arrives as 0. *)
+Definition drift_setting_ok (x : f64) (fatal : bool) (odrift : Z) : bool :=
+  if negb (fge x fzero) then fatal
+  else if feq x fzero then negb fatal && (odrift =? 0)
+  else if fatal then sub_ns x || huge_ns x
+  else (0 <? odrift) && nanos_close x odrift.
+
 Definition C01_config_ok (drift ref peer cutoff timeout interval : option f64)
            (fatal : bool) (odrift : Z) (oref opeer : f64) (ocutoff otimeout ointerval : Z) : bool :=
-  Bool.eqb fatal (flt (setting drift) fzero) &&
+  drift_setting_ok (setting drift) fatal odrift &&
   (fatal ||
-   (match drift with None => odrift =? 0 | Some x => nanos_close x odrift end &&
-    same_f oref (if feq (setting ref) fzero then default_ref else setting ref) &&
+   (same_f oref (if feq (setting ref) fzero then default_ref else setting ref) &&
     same_f opeer (if feq (setting peer) fzero then default_peer else setting peer) &&
     dur_setting_ok cutoff default_cutoff ocutoff &&
     dur_setting_ok timeout default_timeout otimeout &&
